@@ -19,35 +19,48 @@ class InvertedBooleanCheckTransformer(LibcstResultTransformer):
         if isinstance(updated_node.operator, cst.Not) and isinstance(
             (comparison := updated_node.expression), cst.Comparison
         ):
-            return self.report_new_comparison(original_node, comparison)
+            return self.report_new_comparison(original_node, updated_node, comparison)
         return updated_node
 
     def report_new_comparison(
-        self, original_node: cst.UnaryOperation, comparison: cst.Comparison
+        self,
+        original_node: cst.UnaryOperation,
+        updated_node: cst.UnaryOperation,
+        comparison: cst.Comparison,
     ) -> cst.BaseExpression:
-        if len(comparison.comparisons) == 1 and isinstance(
-            comparison.comparisons[0].operator, cst.Is
-        ):
-            # Handle 'not status is True' -> 'not status'
-            if comparison.comparisons[0].comparator.value == "True":
+        if len(comparison.comparisons) != 1:
+            # `not a == b == c` is not `a != b != c`: leave chained comparisons alone
+            return updated_node
+
+        match comparison.comparisons[0]:
+            case cst.ComparisonTarget(operator=cst.Is(), comparator=cst.Name(value="True")):
+                # Handle 'not status is True' -> 'not status'
                 self.report_change(original_node)
                 return cst.UnaryOperation(
-                    operator=cst.Not(), expression=comparison.left
+                    operator=cst.Not(),
+                    expression=comparison.left,
+                    lpar=updated_node.lpar,
+                    rpar=updated_node.rpar,
                 )
-
-            # Handle 'not status is False' -> 'status'
-            if comparison.comparisons[0].comparator.value == "False":
+            case cst.ComparisonTarget(operator=cst.Is(), comparator=cst.Name(value="False")):
+                # Handle 'not status is False' -> 'status'
                 self.report_change(original_node)
                 return comparison.left
 
-        inverted_comparisons = self._invert_comparisons(comparison)
+        if (inverted_comparisons := self._invert_comparisons(comparison)) is None:
+            return updated_node
 
         self.report_change(original_node)
-        return cst.Comparison(left=comparison.left, comparisons=inverted_comparisons)
+        return cst.Comparison(
+            left=comparison.left,
+            comparisons=inverted_comparisons,
+            lpar=updated_node.lpar,
+            rpar=updated_node.rpar,
+        )
 
     def _invert_comparisons(
         self, comparison: cst.Comparison
-    ) -> list[cst.ComparisonTarget]:
+    ) -> list[cst.ComparisonTarget] | None:
         inverted_comparisons = []
         for comparison_op in comparison.comparisons:
             match comparison_op.operator:
@@ -63,8 +76,17 @@ class InvertedBooleanCheckTransformer(LibcstResultTransformer):
                     new_operator = cst.GreaterThan()
                 case cst.GreaterThanEqual():
                     new_operator = cst.LessThan()
+                case cst.In():
+                    new_operator = cst.NotIn()
+                case cst.NotIn():
+                    new_operator = cst.In()
+                case cst.Is():
+                    new_operator = cst.IsNot()
+                case cst.IsNot():
+                    new_operator = cst.Is()
                 case _:
-                    new_operator = comparison_op
+                    # unknown operator: do not rewrite
+                    return None
 
             inverted_comparisons.append(
                 comparison_op.with_changes(operator=new_operator)
